@@ -59,8 +59,20 @@ def table_store(chk: Check, repo: Repo) -> None:
     chk.ob("last-assignment-is-the-configured-type", g.site(), ok, f"get() returns `{ast.unparse(rets[0].value) if rets else '?'}` (same key as set() stores under)", key="table|get")
 
 
+def table_is_total(chk: Check, repo: Repo) -> None:
+    """an invalid table entry is skipped, it does not cost the valid ones their decoder: GroupAddressDPT.set() raises
+    for no table of DPTParsable values (E1 may-raise analysis) - an exception in the middle of the loop leaves the rest
+    of the table unconfigured, and telegrams to those addresses carry no decoded value"""
+    from .e1_common import check_entry, engine, finish
+    mr = engine(repo)
+    st = repo.func("xknx.core.group_address_dpt", "GroupAddressDPT.set")
+    check_entry(chk, mr, st, (), rule="invalid-table-entries-are-skipped")
+    finish(chk, mr)
+
+
 def run(chk: Check, repo: Repo) -> None:
     table_store(chk, repo)
+    table_is_total(chk, repo)
     base = repo.cls(RV, "RemoteValue")
     proc = repo.func(RV, "RemoteValue.process")
     chk.unit(proc)
